@@ -1581,7 +1581,7 @@ impl RustGenerator {
                     )?;
                     writer.line(format!("let index_value = word_to_f64({idx_expr});"))?;
                     writer.line(
-                        "let index = if len == 0 { 0usize } else if !index_value.is_finite() { 0usize } else { (index_value as i64).clamp(0, (len - 1) as i64) as usize };",
+                        "let index = if len == 0 { 0usize } else { (index_value as i64).clamp(0, (len - 1) as i64) as usize };",
                     )?;
                     writer.line(format!("if len == 0 {{ {dest}.fill(0); }} else {{"))?;
                     writer.indented(1, |writer| {
@@ -1619,7 +1619,7 @@ impl RustGenerator {
                     )?;
                     writer.line(format!("let index_value = word_to_f64({idx_expr});"))?;
                     writer.line(
-                        "let index = if len == 0 { 0usize } else if !index_value.is_finite() { 0usize } else { (index_value as i64).clamp(0, (len - 1) as i64) as usize };",
+                        "let index = if len == 0 { 0usize } else { (index_value as i64).clamp(0, (len - 1) as i64) as usize };",
                     )?;
                     writer.line("if len != 0 {")?;
                     writer.indented(1, |writer| {
